@@ -51,7 +51,7 @@ def gen_config(rng, tier, flavor="db"):
         "n_reads": rng.choice([0, 1, 2, 3, 5, 8]),
         "data_seed": rng.randrange(2 ** 31),
         "gap_rate": rng.choice([0.0, 0.2, 0.5]),
-        "counts": rng.choice(["none", "ints", "ints", "big"] if flavor == "db" else ["none", "ints"]),
+        "counts": rng.choice(["none", "ints", "ints", "big"] if flavor in ("db", "cache") else ["none", "ints"]),
         "err_style": rng.choice(["norm", "third"]),
         "inbreeding": rng.choice([0.0, 0.0, 0.05, 0.3, 0.9, 0.99, 0.001, 0.0005]),
         "temperatures": temps,
